@@ -224,6 +224,10 @@ func formatSelectionSetForInterface(ctx *PlanningContext, insertionPoint []strin
 	for _, def := range defs {
 		// remove fragments and inline fragment for specific definition
 		fieldsSelSet := selectionSetToFieldsRepresentation(selectionSet, def)
+		// nothing is selected for this implementation, an empty fragment is not valid
+		if len(fieldsSelSet) == 0 {
+			continue
+		}
 
 		inlineFragment := ast.InlineFragment{
 			TypeCondition: def.Name,
